@@ -3412,7 +3412,9 @@ func r028(c *Ctx, r *R) {
 
 func init() {
 	register(&Rule{ID: "R15.15", Props: []string{"C15", "C07"}, Floor: 14, Title: "no JSON configuration field carries an envconfig `default` or `required` tag: ApplyEnvVars feeds envconfig the loaded configuration, and envconfig overwrites a populated field with its default whenever the variable is unset", Run: r1515})
-	register(&Rule{ID: "R09.11", Props: []string{"C09", "C03", "C08"}, Floor: 3, Title: "what was received is what is stored and sent: Window.Add stores on every path, PublishMetric hands pubsub a buffer that nothing reuses (pubsub does not copy the payload)", Run: r0911})
+	register(&Rule{ID: "R09.11", Props: []string{"C09", "C03", "C08"}, Floor: 2, Title: "what was received is what is stored and sent: Window.Add stores on every path, PublishMetric hands pubsub a buffer that nothing reuses (pubsub does not copy the payload)", Run: r0911})
+	register(&Rule{ID: "R05.8", Props: []string{"C05", "C06"}, Floor: 1, Title: "the tracker answers `no operation` for a CID only when its table has none: GetExists decides on the lookup alone (a cancelled, failed operation is still the item's status and what Recover retries)", Run: r058})
+	register(&Rule{ID: "R10.9", Props: []string{"C10"}, Floor: 2, Title: "the re-pinning switch the operator saved is the one the peer runs with: disable_repinning is written by the cluster configuration's ToJSON/toConfigJSON and read back by LoadJSON/applyConfigJSON (ApplyEnvVars, run at every start, goes through both)", Run: r109})
 	register(&Rule{ID: "R04.8", Props: []string{"C04", "C03", "C08"}, Floor: 3, Title: "replication factors are taken from the request one by one: an unset factor is replaced by the cluster default without touching the other, and the `replication` shorthand of the query form applies to both factors", Run: r048})
 }
 
@@ -3489,6 +3491,9 @@ func r0911(c *Ctx, r *R) {
 			r.Check(fresh, "publish:own-buffer", ci.Pos(), "the published payload is this call's own buffer", "PublishMetric publishes the bytes of a buffer that outlives the call (taken from a pool or a field): pubsub does not copy the payload, so the next metric encoded into the buffer overwrites a message still being delivered - subscribers decode garbage or drop it")
 		}
 	}
+}
+
+func r058(c *Ctx, r *R) {
 	if f := c.fn(r, "pintracker/optracker", "OperationTracker.GetExists"); f != nil {
 		notFound := func(g Guard) bool {
 			l, idx := mapLookupOf(g.Cond)
@@ -3591,5 +3596,475 @@ func r048(c *Ctx, r *R) {
 			lopsided := mn["replication"] != mx["replication"] || sets["replication-min"] != sets["replication-max"]
 			r.Check((viaKeys || viaSets) && !lopsided, "shorthand:both-factors", f.Pos(), "`replication=N` sets the minimum and the maximum", "PinOptions.FromQuery applies the `replication` shorthand to one factor only: `replication=3` becomes <cluster default>/3, so a request that must fail for lack of 3 healthy peers succeeds with fewer holders")
 		}
+	}
+}
+
+// sameExpr: a and b denote the same value - the same SSA value, equal
+// constants, or the same chain of loads/field selections/conversions over
+// the same base (go/ssa does not share common subexpressions).
+func sameExpr(a, b ssa.Value, depth int) bool {
+	a, b = stripLocal(a), stripLocal(b)
+	if a == b {
+		return true
+	}
+	if depth > 8 || a == nil || b == nil {
+		return false
+	}
+	if ka, ok := a.(*ssa.Const); ok {
+		kb, ok2 := b.(*ssa.Const)
+		if !ok2 || !types.Identical(ka.Type(), kb.Type()) {
+			return false
+		}
+		if ka.Value == nil || kb.Value == nil {
+			return ka.Value == nil && kb.Value == nil
+		}
+		return constant.Compare(ka.Value, token.EQL, kb.Value)
+	}
+	switch x := a.(type) {
+	case *ssa.UnOp:
+		y, ok := b.(*ssa.UnOp)
+		return ok && x.Op == y.Op && sameExpr(x.X, y.X, depth+1)
+	case *ssa.FieldAddr:
+		y, ok := b.(*ssa.FieldAddr)
+		return ok && x.Field == y.Field && sameExpr(x.X, y.X, depth+1)
+	case *ssa.Field:
+		y, ok := b.(*ssa.Field)
+		return ok && x.Field == y.Field && sameExpr(x.X, y.X, depth+1)
+	case *ssa.MakeInterface:
+		y, ok := b.(*ssa.MakeInterface)
+		return ok && sameExpr(x.X, y.X, depth+1)
+	case *ssa.Convert:
+		y, ok := b.(*ssa.Convert)
+		return ok && types.Identical(x.Type(), y.Type()) && sameExpr(x.X, y.X, depth+1)
+	case *ssa.ChangeType:
+		y, ok := b.(*ssa.ChangeType)
+		return ok && sameExpr(x.X, y.X, depth+1)
+	case *ssa.Extract:
+		y, ok := b.(*ssa.Extract)
+		return ok && x.Index == y.Index && sameExpr(x.Tuple, y.Tuple, depth+1)
+	}
+	return false
+}
+
+// reachesAvoiding: some path from block `from` reaches a block satisfying
+// stop without running through a block satisfying avoid.
+func reachesAvoiding(from *ssa.BasicBlock, avoid, stop func(*ssa.BasicBlock) bool) bool {
+	seen := map[*ssa.BasicBlock]bool{}
+	work := []*ssa.BasicBlock{from}
+	for len(work) > 0 {
+		b := work[len(work)-1]
+		work = work[:len(work)-1]
+		if seen[b] {
+			continue
+		}
+		seen[b] = true
+		if avoid(b) {
+			continue
+		}
+		if stop(b) {
+			return true
+		}
+		work = append(work, b.Succs...)
+	}
+	return false
+}
+
+// guardEdge: the successor taken when the (direct, non-derived) guard holds.
+func guardEdge(g Guard) *ssa.BasicBlock {
+	if g.If == nil || g.Derived {
+		return nil
+	}
+	cond, br := g.If.Cond, true
+	for cond != g.Cond {
+		u, ok := cond.(*ssa.UnOp)
+		if !ok || u.Op != token.NOT {
+			return nil
+		}
+		cond, br = u.X, !br
+	}
+	blk := g.If.Block()
+	if len(blk.Succs) != 2 {
+		return nil
+	}
+	if g.Branch == br {
+		return blk.Succs[0]
+	}
+	return blk.Succs[1]
+}
+
+// onlyLoopGuards: the tests of function g standing above block b are the
+// conditions of the loops around it (range over a map, index below length),
+// nothing that depends on the element.
+func onlyLoopGuards(b *ssa.BasicBlock) bool {
+	g := b.Parent()
+	for _, gd := range guardsOf(b) {
+		if gd.Derived || gd.If == nil || gd.If.Parent() != g {
+			continue
+		}
+		if ex, isEx := stripLocal(gd.Cond).(*ssa.Extract); isEx && ex.Index == 0 {
+			if _, isN := ex.Tuple.(*ssa.Next); isN {
+				continue
+			}
+		}
+		if bo, isB := gd.Cond.(*ssa.BinOp); isB && bo.Op == token.LSS {
+			continue
+		}
+		return false
+	}
+	return true
+}
+
+func init() {
+	register(&Rule{ID: "R11.9", Props: []string{"C11"}, Floor: 6, Title: "the request's argument reaches the operation whichever way it is served: a route that answers from this peer (`local=true`) and from the cluster passes the same parsed value to both operations; the load-balancing client moves to the next peer only when no server answered (error code 0), every answer of a server is returned as it is", Run: r119})
+	register(&Rule{ID: "R12.6", Props: []string{"C12", "C13", "C11"}, Floor: 1, Title: "the add helper reports the import's own outcome: once FromMultipart ran, the error AddMultipartHTTPHandler returns is FromMultipart's (writing the error document must not overwrite it - the proxy and the REST API decide on it whether the add succeeded)", Run: r126})
+	register(&Rule{ID: "R13.11", Props: []string{"C13"}, Floor: 2, Title: "blocks are stored under the CID they were built with: BlockPut asks for format v0 exactly when the CID's version is 0, for the codec's own name otherwise (a CIDv1 dag-pb block put as v0 is stored under a CIDv0 and the pin of the v1 root never finds it)", Run: r1311})
+	register(&Rule{ID: "R14.8", Props: []string{"C14"}, Floor: 2, Title: "import replaces: each state manager's ImportState cleans the existing state before it opens the offline state it imports into (raft's offline state is read from the newest snapshot: opened first, the old pinset is merged with the imported one)", Run: r148})
+	register(&Rule{ID: "R15.16", Props: []string{"C15"}, Floor: 2, Title: "environment overrides reach every component and hidden settings of any type are masked: Manager.ApplyEnvVars calls each registered component without a test, DisplayJSON replaces every field tagged hidden (no second condition on the field's type)", Run: r1516})
+	register(&Rule{ID: "R16.8", Props: []string{"C16", "C08"}, Floor: 4, Title: "pin depth to pin mode: ToPinMode answers direct for depth 0 only; -1 and every other depth are recursive (a depth-limited pin handed to the daemon as direct holds only the root block)", Run: r168})
+}
+
+func r119(c *Ctx, r *R) {
+	routes, _ := c.restRoutes(r)
+	n := 0
+	for _, rt := range routes {
+		if rt.handler == nil {
+			continue
+		}
+		f := c.P.SSA.FuncValue(rt.handler)
+		if f == nil {
+			continue
+		}
+		by := map[string]rpcUse{}
+		var keys []string
+		withAnon(f, func(g *ssa.Function) {
+			for _, u := range c.rpcUsesIn(g) {
+				k := u.Svc + "." + u.Method
+				if _, dup := by[k]; !dup {
+					keys = append(keys, k)
+				}
+				by[k] = u
+			}
+		})
+		sort.Strings(keys)
+		for _, k := range keys {
+			l, ok := by[k+"Local"]
+			if !ok {
+				continue
+			}
+			u := by[k]
+			n++
+			if u.Arg == nil || l.Arg == nil {
+				r.Und("local-global:"+rt.name, rt.pos, "the argument of %s or %sLocal is not a value of the handler", k, k)
+				continue
+			}
+			r.Check(sameExpr(u.Arg, l.Arg, 0), "local-global:"+rt.name+":"+k, l.Call.Pos(), k+" and "+k+"Local receive the same parsed argument", fmt.Sprintf("route %s passes %sLocal a different argument than %s: with local=true the request's value (CID, filter) is replaced by something else and the answer is for another request", rt.name, k, k))
+		}
+	}
+	if n == 0 {
+		r.Und("local-global", token.NoPos, "no route serves both X and XLocal: shape not recognised")
+	}
+	// load-balancing client
+	if f := c.fn(r, "api/rest/client", "loadBalancingClient.retry"); f != nil {
+		var rec []ssa.CallInstruction
+		for _, ci := range callsIn(f) {
+			if ci.Common().StaticCallee() == f {
+				rec = append(rec, ci)
+			}
+		}
+		// a loop form: the back edge stands for the recursive call
+		codeZero := func(g Guard) bool {
+			x, k, tme, isEq := eqConst(g.Cond)
+			if !isEq || tme != g.Branch {
+				return false
+			}
+			if iv, ok := constant.Int64Val(k); !ok || iv != 0 {
+				return false
+			}
+			fl, _ := fieldLoad(x)
+			return fl != nil && fl.Name() == "Code"
+		}
+		if len(rec) == 0 {
+			r.Und("lbclient-retry", f.Pos(), "retry does not call itself: shape not recognised")
+		}
+		for _, ci := range rec {
+			r.Check(mustPass(ci.Block(), codeZero), "lbclient-retry:only-when-unreachable", ci.Pos(), "the next peer is tried only when no server answered (Code == 0)", "the load-balancing client retries on another peer after a server answered (an error with a non-zero code reaches the retry): the caller gets another peer's answer - or a repeated pin/add - instead of what the server it reached said")
+		}
+	}
+}
+
+func r126(c *Ctx, r *R) {
+	srv := c.fn(r, "adder/adderutils", "AddMultipartHTTPHandler")
+	if srv == nil {
+		return
+	}
+	n := 0
+	for _, dc := range findCallsDeep(srv, "adder.Adder).FromMultipart") {
+		call, isCall := dc.Inner.(*ssa.Call)
+		if !isCall {
+			continue
+		}
+		g := call.Parent()
+		errIdx := g.Signature.Results().Len() - 1
+		if errIdx < 0 || !isErrorType(g.Signature.Results().At(errIdx).Type()) {
+			r.Und("import-error", call.Pos(), "%s calls FromMultipart but returns no error", g.Name())
+			continue
+		}
+		for _, lf := range returnLeaves(g, errIdx) {
+			if lf.Ret == nil || !(call.Block().Dominates(lf.Ret.Block())) {
+				continue
+			}
+			n++
+			oc, idx := originCallLocal(lf.Val)
+			fromImport := oc == call && idx == 1
+			if !fromImport && oc != nil {
+				// wrapped: fmt.Errorf("...%w", err)
+				for _, a := range callArgs(oc.Common()) {
+					for _, e := range append(variadicElems(a), a) {
+						if o2, i2 := originCallLocal(e); o2 == call && i2 == 1 {
+							fromImport = true
+						}
+					}
+				}
+			}
+			if isNilConst(lf.Val) {
+				fromImport = lf.GuardedBy(func(gd Guard) bool {
+					return gNil(gd, false, func(v ssa.Value) bool { o, i := originCallLocal(v); return o == call && i == 1 })
+				})
+			}
+			r.Check(fromImport, "import-error:returned", lf.Pos, "after the import ran, the error returned is the import's", g.Name()+" returns, after FromMultipart ran, an error that is not FromMultipart's (the variable was reused for writing the response): a failed add is reported as success to the REST API and the proxy, which then answer 200 and pin nothing")
+		}
+	}
+	if n == 0 {
+		r.Und("import-error", srv.Pos(), "no return after FromMultipart: shape not recognised")
+	}
+}
+
+func r1311(c *Ctx, r *R) {
+	f := c.fn(r, "ipfsconn/ipfshttp", "Connector.BlockPut")
+	if f == nil {
+		return
+	}
+	isVersion := func(x ssa.Value) bool {
+		if fl, _ := fieldLoad(x); fl != nil && fl.Name() == "Version" {
+			return true
+		}
+		if oc, _ := originCallLocal(x); oc != nil && nameMatches(callName(oc.Common()), "(github.com/ipfs/go-cid.Cid).Version") {
+			return true
+		}
+		return false
+	}
+	v0 := func(want bool) func(Guard) bool {
+		return func(g Guard) bool {
+			x, k, tme, isEq := eqConst(g.Cond)
+			if !isEq || (tme == g.Branch) != want {
+				return false
+			}
+			if iv, ok := constant.Int64Val(constant.ToInt(k)); !ok || iv != 0 {
+				return false
+			}
+			return isVersion(x)
+		}
+	}
+	n := 0
+	for _, dc := range findCallsDeep(f, "(net/url.Values).Set") {
+		ci := dc.Inner
+		args := callArgs(ci.Common())
+		if k, ok := constString(args[0]); !ok || k != "format" {
+			continue
+		}
+		for _, lf := range valueLeaves(args[1], ci.Block()) {
+			n++
+			s, isK := constString(lf.Val)
+			if isK && s == "v0" {
+				r.Check(lf.GuardedBy(v0(true)) || mustPass(ci.Block(), v0(true)), "blockput-format:v0-only-for-cidv0", ci.Pos(), "format v0 is requested only for CIDv0 blocks", "BlockPut requests format=v0 on a test other than the CID's version being 0: a CIDv1 dag-pb/sha2-256 block is stored by the daemon under its CIDv0, the DAG added with cid-version=1 is never complete under its own root and the final pin hangs or fails")
+			} else {
+				r.Check(lf.GuardedBy(v0(false)) || mustPass(ci.Block(), v0(false)), "blockput-format:codec-for-cidv1", ci.Pos(), "the codec's name is requested for every other CID", "BlockPut requests the codec's name as format for a CIDv0 block (the test is not the CID's version): the daemon stores it under a CIDv1 and the CIDv0 root is never found")
+			}
+		}
+	}
+	if n == 0 {
+		r.Und("blockput-format", f.Pos(), "BlockPut sets no `format`: shape not recognised")
+	}
+}
+
+func r148(c *Ctx, r *R) {
+	n := 0
+	for _, name := range []string{"raftStateManager.ImportState", "crdtStateManager.ImportState"} {
+		f := c.fn(r, "cmdutils", name)
+		if f == nil {
+			continue
+		}
+		cleans := findCallsDeep(f, ".Clean", ".CleanupRaft")
+		opens := findCallsDeep(f, ".GetOfflineState", ".OfflineState")
+		if len(cleans) == 0 || len(opens) == 0 {
+			r.Und("import-replaces:"+name, f.Pos(), "ImportState: the clean or the opening of the offline state was not found")
+			continue
+		}
+		for _, op := range opens {
+			n++
+			ok := false
+			for _, cl := range cleans {
+				if dominatesInstr(cl.Outer, op.Outer) && cl.Outer != op.Outer {
+					ok = true
+				}
+				if cl.Outer == op.Outer && cl.Inner.Parent() == op.Inner.Parent() && dominatesInstr(cl.Inner, op.Inner) {
+					ok = true
+				}
+			}
+			r.Check(ok, "import-replaces:"+name, op.Inner.Pos(), "the old state is cleaned before the offline state is opened", name+" opens the offline state before (or without) cleaning the old one: raft's offline state is read from the newest snapshot, so the import adds to the old pinset instead of replacing it")
+		}
+	}
+	if n == 0 {
+		r.Und("import-replaces", token.NoPos, "no ImportState found")
+	}
+}
+
+func r1516(c *Ctx, r *R) {
+	if f := c.fn(r, "config", "Manager.ApplyEnvVars"); f != nil {
+		n := 0
+		for _, dc := range findCallsDeep(f, "ComponentConfig).ApplyEnvVars") {
+			ci := dc.Inner
+			inLoop := false
+			for _, gd := range guardsOf(ci.Block()) {
+				if ex, isEx := stripLocal(gd.Cond).(*ssa.Extract); isEx && ex.Index == 0 {
+					if _, isN := ex.Tuple.(*ssa.Next); isN && gd.Branch {
+						inLoop = true
+					}
+				}
+			}
+			if !inLoop {
+				continue // the cluster section, handled on its own under a nil test
+			}
+			n++
+			r.Check(onlyLoopGuards(ci.Block()), "applyenv:every-component", ci.Pos(), "every registered component gets its environment overrides", "Manager.ApplyEnvVars skips some components (a test inside the loop): a component that is missing from service.json runs on its defaults and its CLUSTER_<COMPONENT>_* variables - the documented way to configure it - are ignored")
+		}
+		if n == 0 {
+			r.Und("applyenv", f.Pos(), "Manager.ApplyEnvVars: no loop over the components was recognised")
+		}
+	}
+	if df := c.fn(r, "config", "DisplayJSON"); df != nil {
+		isHidden := func(g Guard) bool {
+			x, k, tme, ok := eqConst(g.Cond)
+			if !ok || k.Kind() != constant.String || constant.StringVal(k) != "true" || tme != g.Branch {
+				return false
+			}
+			call, _ := originCall(x)
+			if call == nil || !nameMatches(callName(call.Common()), "(reflect.StructTag).Get") {
+				return false
+			}
+			args := callArgs(call.Common())
+			key, _ := constString(args[len(args)-1])
+			return key == "hidden"
+		}
+		n := 0
+		var fns []*ssa.Function
+		for g := range ssaClosure(df) {
+			fns = append(fns, g)
+		}
+		sort.Slice(fns, func(i, j int) bool { return fns[i].Pos() < fns[j].Pos() })
+		for _, g := range fns {
+			isStore := func(b *ssa.BasicBlock) bool {
+				for _, i := range b.Instrs {
+					st, ok := i.(*ssa.Store)
+					if !ok {
+						continue
+					}
+					fa, ok := st.Addr.(*ssa.FieldAddr)
+					if !ok || fieldOfAddr(fa) == nil || fieldOfAddr(fa).Name() != "Type" || !strings.HasSuffix(fieldOfAddr(fa).Pkg().Path(), "reflect") {
+						continue
+					}
+					return true
+				}
+				return false
+			}
+			keeps := func(b *ssa.BasicBlock) bool {
+				for _, i := range b.Instrs {
+					if ci, ok := i.(ssa.CallInstruction); ok && callName(ci.Common()) == "builtin.append" && strings.HasSuffix(ci.Common().Args[0].Type().String(), "reflect.StructField") {
+						return true
+					}
+				}
+				return false
+			}
+			for _, b := range g.Blocks {
+				if !isStore(b) {
+					continue
+				}
+				for _, gd := range guardsOf(b) {
+					if !isHidden(gd) {
+						continue
+					}
+					from := guardEdge(gd)
+					if from == nil {
+						continue
+					}
+					n++
+					r.Check(!reachesAvoiding(from, isStore, keeps), "displayjson:every-hidden-field", b.Instrs[0].Pos(), "every field tagged hidden gets the placeholder before it is kept", "DisplayJSON keeps some fields tagged hidden:\"true\" with their own type (a second test stands between the tag and the replacement): a hidden setting that is not a string - a struct or map holding credentials - is printed in clear by `config show` and the logs")
+				}
+			}
+		}
+		if n == 0 {
+			r.Und("displayjson:every-hidden-field", df.Pos(), "the replacement of hidden fields was not recognised")
+		}
+	}
+}
+
+func r168(c *Ctx, r *R) {
+	f := c.fn(r, "api", "PinDepth.ToPinMode")
+	pm := c.namedType(r, "api", "PinMode")
+	if f == nil || pm == nil {
+		return
+	}
+	var direct, recursive constant.Value
+	for _, k := range declaredConsts(pm) {
+		switch k.Name() {
+		case "PinModeDirect":
+			direct = k.Val()
+		case "PinModeRecursive":
+			recursive = k.Val()
+		}
+	}
+	if direct == nil || recursive == nil {
+		r.Und("topinmode", f.Pos(), "PinModeDirect/PinModeRecursive not found")
+		return
+	}
+	for _, d := range []int64{-1, 0, 1, 7} {
+		_, got, ok := ssaEval(f, bindParams(f, map[int]constant.Value{0: constant.MakeInt64(d)}))
+		key := fmt.Sprintf("topinmode:%d", d)
+		if !ok || got == nil {
+			r.Und(key, f.Pos(), "ToPinMode(%d) could not be evaluated", d)
+			continue
+		}
+		want := recursive
+		if d == 0 {
+			want = direct
+		}
+		r.Check(constant.Compare(got, token.EQL, want), key, f.Pos(), fmt.Sprintf("ToPinMode(%d) = %s", d, got), fmt.Sprintf("ToPinMode(%d) = %s, expected %s: a pin of that depth is handed to the daemon in the wrong mode (a depth-limited pin taken as direct holds only the root block; the tracker then compares the daemon's answer with the wrong mode)", d, got, want))
+	}
+}
+
+func r109(c *Ctx, r *R) {
+	n := 0
+	for _, cc := range c.componentConfigs(r) {
+		if cc.rel != "" || cc.name != "Config" {
+			continue
+		}
+		J := jsonStructOf(c, cc)
+		if J == nil {
+			continue
+		}
+		jf := fieldByName(J, "DisableRepinning")
+		saveRoot, _ := c.P.FuncDecl(cc.rel, cc.name+".ToJSON")
+		loadRoot, _ := c.P.FuncDecl(cc.rel, cc.name+".LoadJSON")
+		if jf == nil || saveRoot == nil || loadRoot == nil {
+			continue
+		}
+		save := mentions(cc.pkg, funcsCalledFrom(c.P, cc.pkg, saveRoot))
+		load := mentions(cc.pkg, funcsCalledFrom(c.P, cc.pkg, loadRoot))
+		n++
+		r.Check(save[jf], "repinning-switch:saved", jf.Pos(), "disable_repinning is written when the configuration is turned into JSON", "the cluster configuration's JSON form never receives DisableRepinning: ApplyEnvVars (run at every daemon start) converts the loaded configuration to JSON and back, so `disable_repinning: true` comes back false and pins of a failed or removed peer are re-allocated although the operator disabled it")
+		r.Check(load[jf], "repinning-switch:loaded", jf.Pos(), "disable_repinning is read when the JSON is applied", "the cluster configuration never reads disable_repinning from its JSON form: the peer re-allocates pins of failed or removed peers although the operator disabled it")
+	}
+	if n == 0 {
+		r.Und("repinning-switch", token.NoPos, "the cluster configuration's JSON form (or its DisableRepinning setting) was not found")
 	}
 }
